@@ -482,7 +482,10 @@ class CurveFitting(object):
         if abs(t) < TOL and abs(m) >= TOL and abs(r) >= TOL:
             # Only two functions were given: Solve the 2x2 system
             d = m * r - p * p
-            if abs(d) < TOL:
+            # The determinant is also compared with its own scale: for data
+            # of magnitude 1e2..1e3 a singular system leaves a round-off
+            # residue far above the absolute tolerance
+            if abs(d) < TOL or abs(d) < RTOL * m * r:
                 raise ZeroDivisionError("Input data leads to a division by zero")
             return ((u * r - v * p) / d, (v * m - u * p) / d, 0.0)
 
@@ -491,7 +494,7 @@ class CurveFitting(object):
 
         d = m * r * t + 2.0 * p * q * s - m * s * s - r * q * q - t * p * p
 
-        if abs(d) < TOL:
+        if abs(d) < TOL or abs(d) < RTOL * m * r * t:
             raise ZeroDivisionError("Input data leads to a division by zero")
 
         a = (u * (r * t - s * s) + v * (q * s - p * t)
